@@ -1,6 +1,7 @@
 // nifsim — typed synthesis of populated blocks of every registered type (DESIGN 4.2).
 // The library's own Get() is run against a generating stream; hooks H1-H3 say what is being read.
 #include "sim.hpp"
+#include <functional>
 #include <cfloat>
 
 namespace sim {
@@ -349,4 +350,167 @@ std::unique_ptr<NiObject> synthBlock(NiHeader& hdr, const std::string& type, uin
 	return std::move(g.obj);
 }
 bool classDerivesFromPublic(const std::string& blockType, const std::string& base) { return classDerivesFrom(classOfBlockType(blockType), base); }
+
+// ---------------------------------------------------------------------------------------------
+// Type-correct attachment of a populated block of any registered type below a shape (C14 sweep: every block type is
+// cloned at least once as part of a shape's subtree). Where neither the shape nor the blocks hanging off it have a
+// reference slot for the type, carrier blocks are synthesised (controller -> interpolator -> data, property -> texture, ...).
+static const std::vector<std::string>& childSlotTypes(NiHeader& hdr, const std::string& type) {
+	static std::map<std::string, std::vector<std::string>> cache;
+	auto it = cache.find(type);
+	if (it != cache.end()) return it->second;
+	std::vector<std::string> out;
+	if (!isBuilderOnly(type) && type != "NiUnknown") {
+		for (uint64_t sd = 1; sd <= 3; sd++) {
+			GenBlock g = genOne(hdr, type, 7700 + sd, true);
+			if (!g.obj) break;
+			std::set<NiRef*> cs;
+			g.obj->GetChildRefs(cs);
+			for (auto& rf : g.refs)
+				if (cs.count(rf.first) && std::find(out.begin(), out.end(), rf.second) == out.end()) out.push_back(rf.second);
+		}
+	}
+	return cache[type] = out;
+}
+
+bool attachBelowShape(NifFile& nif, NiShape* shape, const std::string& type, uint64_t seed, Ctx& ctx) {
+	auto& hdr = nif.GetHeader();
+	if (!shape || isBuilderOnly(type) || type == "NiUnknown") return false;
+	// scene-graph objects (nodes, shapes, particle systems) do not hang below a shape
+	if (classDerivesFrom(classOfBlockType(type), "NiAVObject")) { ctx.probe("attach_skipped_scene_graph_type"); return false; }
+	auto& allTypes = allBlockTypes();
+	if (std::find(allTypes.begin(), allTypes.end(), type) == allTypes.end()) return false;
+	static std::vector<std::string> all;
+	if (all.empty())
+		for (auto& t : allTypes)
+			if (!classDerivesFrom(classOfBlockType(t), "NiAVObject")) all.push_back(t);
+	Rng r(seed * 7919 + 29);
+	// owners: the shape and the named blocks hanging off it (shader, alpha property, ...)
+	struct RootSlot { std::string decl; std::function<void(uint32_t)> set; uint32_t owner; };
+	std::vector<RootSlot> roots;
+	std::vector<uint32_t> owners{nif.GetBlockID(shape)};
+	{
+		std::set<NiRef*> cs;
+		shape->GetChildRefs(cs);
+		std::vector<uint32_t> ids;
+		for (auto c : cs) if (!c->IsEmpty()) ids.push_back(c->index);
+		std::sort(ids.begin(), ids.end());
+		for (auto id : ids) if (hdr.GetBlock<NiObjectNET>(id)) owners.push_back(id);
+	}
+	bool props = hdr.GetVersion().Stream() <= 34;
+	for (auto oid : owners) {
+		auto net = hdr.GetBlock<NiObjectNET>(oid);
+		if (!net) continue;
+		roots.push_back({"NiTimeController", [&hdr, oid](uint32_t id) {
+			auto o = hdr.GetBlock<NiObjectNET>(oid);
+			NiBlockRef<NiTimeController>* slot = &o->controllerRef;
+			for (int guard = 0; guard < 64 && !slot->IsEmpty(); guard++) {
+				auto c = hdr.GetBlock<NiTimeController>(slot->index);
+				if (!c) break;
+				slot = &c->nextControllerRef;
+			}
+			slot->index = id;
+		}, oid});
+		roots.push_back({"NiExtraData", [&hdr, oid](uint32_t id) { hdr.GetBlock<NiObjectNET>(oid)->extraDataRefs.AddBlockRef(id); }, oid});
+		if (auto av = hdr.GetBlock<NiAVObject>(oid)) {
+			if (av->collisionRef.IsEmpty()) roots.push_back({"NiCollisionObject", [&hdr, oid](uint32_t id) { hdr.GetBlock<NiAVObject>(oid)->collisionRef.index = id; }, oid});
+			if (props) roots.push_back({"NiProperty", [&hdr, oid](uint32_t id) { hdr.GetBlock<NiAVObject>(oid)->propertyRefs.AddBlockRef(id); }, oid});
+		}
+	}
+	// breadth-first search over "type C has a child slot that accepts type U"
+	std::map<std::string, std::string> parent; // type -> carrier type ("" = fits a root slot)
+	std::vector<std::string> queue;
+	auto fitsRoot = [&](const std::string& t) {
+		for (auto& rs : roots) if (classDerivesFrom(classOfBlockType(t), rs.decl)) return true;
+		return false;
+	};
+	for (auto& t : all)
+		if (!isBuilderOnly(t) && t != "NiUnknown" && fitsRoot(t)) { parent[t] = ""; queue.push_back(t); }
+	for (size_t qi = 0; qi < queue.size() && !parent.count(type); qi++) {
+		std::string c = queue[qi];
+		for (auto& d : childSlotTypes(hdr, c))
+			for (auto& u : all)
+				if (!parent.count(u) && !isBuilderOnly(u) && u != "NiUnknown" && classDerivesFrom(classOfBlockType(u), d)) { parent[u] = c; queue.push_back(u); }
+	}
+	if (!parent.count(type)) { ctx.probe("attach_no_slot_chain"); return false; }
+	std::vector<std::string> chain{type};
+	while (!parent[chain.back()].empty() && chain.size() < 8) chain.push_back(parent[chain.back()]);
+	std::reverse(chain.begin(), chain.end()); // carrier ... type
+	// synthesise the chain back to front
+	uint32_t nextId = NIF_NPOS;
+	std::string nextType;
+	std::vector<uint32_t> ids(chain.size(), NIF_NPOS);
+	std::vector<std::vector<std::pair<NiRef*, std::string>>> refsOf(chain.size());
+	std::vector<NiObject*> objs(chain.size(), nullptr);
+	for (size_t k = chain.size(); k-- > 0;) {
+		std::unique_ptr<NiObject> obj;
+		std::vector<std::pair<NiRef*, std::string>> refs;
+		NiRef* link = nullptr;
+		for (uint64_t attempt = 0; attempt < 12 && !obj; attempt++) {
+			refs.clear();
+			auto o = synthBlock(hdr, chain[k], seed * 131 + k * 17 + attempt, &refs);
+			if (!o) break;
+			if (nextId == NIF_NPOS) { obj = std::move(o); break; }
+			std::set<NiRef*> cs;
+			o->GetChildRefs(cs);
+			for (auto& rf : refs)
+				if (cs.count(rf.first) && classDerivesFrom(classOfBlockType(nextType), rf.second)) { link = rf.first; break; }
+			if (link) obj = std::move(o);
+		}
+		if (!obj) { ctx.probe("attach_carrier_not_synthesised"); return false; }
+		for (auto& rf : refs) rf.first->index = NIF_NPOS;
+		if (link) link->index = nextId;
+		objs[k] = obj.get();
+		refsOf[k] = refs;
+		ids[k] = hdr.AddBlock(std::move(obj));
+		nextId = ids[k];
+		nextType = chain[k];
+	}
+	// pointers (back references): the predecessor in the chain, else the owner, when the types fit
+	RootSlot* rootSlot = nullptr;
+	{
+		std::vector<RootSlot*> fit;
+		for (auto& rs : roots) if (classDerivesFrom(classOfBlockType(chain[0]), rs.decl)) fit.push_back(&rs);
+		if (fit.empty()) return false;
+		rootSlot = fit[r.below(uint32_t(fit.size()))];
+	}
+	for (size_t k = 0; k < chain.size(); k++) {
+		std::set<NiRef*> ps;
+		objs[k]->GetPtrs(ps);
+		uint32_t pred = k == 0 ? rootSlot->owner : ids[k - 1];
+		for (auto& rf : refsOf[k]) {
+			if (!ps.count(rf.first)) continue;
+			auto po = hdr.GetBlock<NiObject>(pred);
+			std::string pc = po ? classOfBlockType(po->GetBlockName()) : "";
+			if (classDerivesFrom(pc, rf.second)) rf.first->index = pred;
+			else {
+				auto oo = hdr.GetBlock<NiObject>(rootSlot->owner);
+				if (oo && classDerivesFrom(classOfBlockType(oo->GetBlockName()), rf.second)) rf.first->index = rootSlot->owner;
+			}
+		}
+	}
+	// one level of children below the block itself, so that its own references are rebound by a clone as well
+	{
+		std::set<NiRef*> cs;
+		objs.back()->GetChildRefs(cs);
+		int added = 0;
+		for (auto& rf : refsOf.back()) {
+			if (!cs.count(rf.first) || added >= 3 || !r.chance(0.6)) continue;
+			std::vector<std::string> cands;
+			for (auto& u : all)
+				if (!isBuilderOnly(u) && u != "NiUnknown" && classDerivesFrom(classOfBlockType(u), rf.second) && !classDerivesFrom(classOfBlockType(u), "NiAVObject")) cands.push_back(u);
+			if (cands.empty()) continue;
+			std::vector<std::pair<NiRef*, std::string>> crefs;
+			auto child = synthBlock(hdr, cands[r.below(uint32_t(cands.size()))], seed * 31 + uint64_t(added) + 5, &crefs);
+			if (!child) continue;
+			for (auto& c : crefs) c.first->index = NIF_NPOS;
+			rf.first->index = hdr.AddBlock(std::move(child));
+			added++;
+		}
+	}
+	rootSlot->set(ids[0]);
+	ctx.probe(chain.size() > 1 ? "attached_below_shape_via_carrier" : "attached_below_shape");
+	ctx.info["attach_chain"] = (long) chain.size();
+	return true;
+}
 } // namespace sim
